@@ -80,7 +80,7 @@ type Scenario struct {
 	// "svc": local.Service.NewRunNumber, "src": ConsulSource.GetNextUInt32, "rpc": the way a core with an apricot:// URI
 	// gets its numbers - remote.RemoteService -> gRPC -> remote.RpcServer (the apricot daemon) -> local.Service -> Consul
 	Mode string `json:"mode"`
-	Init   struct {
+	Init struct {
 		Present bool   `json:"present"`
 		Val     int64  `json:"val"`
 		Idx     uint64 `json:"idx"`
@@ -123,7 +123,12 @@ var jitter = &jitterHook{rng: rand.New(rand.NewSource(1))}
 func runStress(rec *vtrace.Recorder, sc *Scenario) bool {
 	r := &run{rec: rec, sc: sc, srv: fakeconsul.New(), parkCh: make(chan *fakeconsul.Request, 64),
 		clients: map[string]*client{}, gens: map[int]caller{}}
-	defer r.srv.Close()
+	defer func() {
+		for _, f := range r.closers {
+			f()
+		}
+		r.srv.Close()
+	}()
 	r.key = svcKey
 	if sc.Mode == "src" {
 		r.key = srcKey
@@ -216,6 +221,7 @@ type run struct {
 	clients map[string]*client
 	order   []*client
 	gens    map[int]caller
+	closers []func() // what an "rpc" caller started (gRPC server, listener): stopped at the end of the scenario
 	gen     int
 	failed  bool // harness-internal trouble
 }
@@ -349,7 +355,9 @@ func (r *run) caller() caller {
 		if err != nil {
 			r.harnessError("listen: " + err.Error())
 		}
-		go func() { _ = remote.NewServer(s).Serve(lis) }()
+		gs := remote.NewServer(s)
+		go func() { _ = gs.Serve(lis) }()
+		r.closers = append(r.closers, gs.Stop)
 		rs, err := remote.NewService("apricot://" + lis.Addr().String())
 		if err != nil {
 			r.harnessError("remote.NewService: " + err.Error())
@@ -544,7 +552,12 @@ func runScenario(rec *vtrace.Recorder, sc *Scenario) bool {
 	}
 	r := &run{rec: rec, sc: sc, srv: fakeconsul.New(), parkCh: make(chan *fakeconsul.Request, 64),
 		clients: map[string]*client{}, gens: map[int]caller{}}
-	defer r.srv.Close()
+	defer func() {
+		for _, f := range r.closers {
+			f()
+		}
+		r.srv.Close()
+	}()
 	r.key = svcKey
 	if sc.Mode == "src" {
 		r.key = srcKey
